@@ -228,7 +228,7 @@ class IntegralGenerator:
 
         parts = []
         for i, cell_list in cells.items():
-            for c in cell_list:
+            for c in sorted(cell_list):
                 parts.append(geometry.write_table(ufl_geometry[i], c))
 
         return parts
@@ -594,7 +594,7 @@ class IntegralGenerator:
         output = [A]
 
         # Make sure we don't have repeated symbols in input
-        input = list(set(input))
+        input = list(dict.fromkeys(input))
 
         # assert input and output are Symbol objects
         assert all(isinstance(i, L.Symbol) for i in input)
